@@ -305,6 +305,9 @@ def main(argv=None) -> int:
     snippets = list(corpus.repo_snippets())
     if t == "quick":
         snippets = rng.sample(snippets, 500)
+    # the constructs of the Shapes catalogue as well (module level): rules in isolation have no later stage to hide behind
+    import shapes
+    snippets += [(f"catalogue:{name}", text + "\n") for name, (need, text) in sorted(shapes.CATALOGUE.items()) if need == "none" and proj.valid(text + "\n")]
     iso = isolated.run_isolated([(o, s) for o, s in snippets])
     fired: dict = {}
     n_iso = 0
